@@ -16,6 +16,8 @@ def body_op(rng, kind, n):
     """one API call made from inside a callback: nothing / disconnect / ref / unref of a ref taken earlier /
     response_send / event_send (plus list iteration and stats, which only read)"""
     r = rng.random()
+    if kind != "destroyed" and rng.random() < 0.06:
+        return "Kill %d" % rng.randrange(4)          # a forked client dies while the server runs this callback
     if kind == "destroyed":
         # the connection itself is going away: only its statistics may still be read; other connections are fair game
         if r < 0.4:
@@ -174,6 +176,12 @@ def directed():
         P.append(S + ["Fork 0 1 2", "Wait 0", "Kill 0", "Step", "Step"])
         P.append(S + ["Fork 0 0 0", "Step", "Step", "Kill 0", "Step"])
         P.append(S + ["Fork 0 0 0", "Kill 0", "Step", "Step"])
+        # a client that dies while the server is inside connection_accept / connection_created for it (the answer cannot be
+        # written / the connection is established for a dead peer), alone and next to a healthy connection
+        P.append(S + ["Body accept 1 0 Kill 0", "Fork 0 0 0", "Step", "Step", "Step"])
+        P.append(S + ["Body accept 2 0 Kill 1"] + con + ["Fork 1 0 0", "Step", "Step", "CSend 0 1", "Step", "CDisc 0", "Step"])
+        P.append(S + ["Body created 1 0 Kill 0", "Fork 0 1 1", "Step", "Step", "Step", "Step"])
+        P.append(S + ["Body accept 1 0 Kill 0 ; Ref self", "Fork 0 0 0", "Step", "Step", "Unref 1", "Step"])
         # unref of the other connection from a closed callback
         P.append(S + ["Body created 2 0 Ref 1", "Body closed 2 0 Unref 1"] + con2 + ["CDisc 0", "Step", "CDisc 1", "Step"])
         # the statistics are read in connection_destroyed (as corosync does), after a normal close and after a retried one
